@@ -27,6 +27,8 @@ type c20Case struct {
 	Funds   []uint64 `json:"funding_values"`
 	Q       quote    `json:"quote"`
 	Insc    bool     `json:"ordinal_is_inscription"`
+	// OwnKeys: every funding UTXO is locked to a key of its own (and carries that key's unlocker)
+	OwnKeys bool `json:"funding_utxos_have_own_keys,omitempty"`
 }
 
 var c20Keys = testPrivKeys(4)
@@ -61,9 +63,13 @@ func c20Check(c c20Case) (fs []rep.Finding) {
 	prevOuts := map[string]*bt.Output{hex.EncodeToString(ordUTXO.TxID) + fmt.Sprint(ordUTXO.Vout): {Satoshis: c.OrdSats, LockingScript: libScript(ordLock)}}
 	var funds []*bt.UTXO
 	for i, v := range c.Funds {
-		u := &bt.UTXO{TxID: txid32(byte(0x20 + i)), Vout: uint32(i), Satoshis: v, LockingScript: libScript(buyer.lock), Unlocker: unlockerPtr(buyer.priv)}
+		owner := buyer
+		if c.OwnKeys {
+			owner = c20PartyOf((c.Buyer + 1 + i) % len(c20Keys))
+		}
+		u := &bt.UTXO{TxID: txid32(byte(0x20 + i)), Vout: uint32(i), Satoshis: v, LockingScript: libScript(owner.lock), Unlocker: unlockerPtr(owner.priv)}
 		funds = append(funds, u)
-		prevOuts[hex.EncodeToString(u.TxID)+fmt.Sprint(u.Vout)] = &bt.Output{Satoshis: v, LockingScript: libScript(buyer.lock)}
+		prevOuts[hex.EncodeToString(u.TxID)+fmt.Sprint(u.Vout)] = &bt.Output{Satoshis: v, LockingScript: libScript(owner.lock)}
 	}
 	fq := c.Q.lib()
 	var tx *bt.Tx
@@ -272,7 +278,7 @@ func lenClass(n int) string {
 
 func init() {
 	p := register(&Prop{ID: "C20", Level: "exploration",
-		Rule: "exhaustive product: 4 flow pairs (list->accept, list->accept2Dummies, bid->accept, bid2Dummies->accept2Dummies) x seller/buyer keys (2x2 quick, 3x3 thorough) x prices {1,2,546,1000,1000000} x ordinal UTXO of 1 (and 2) satoshis, plain or inscription script x funding sets of 2..4 UTXOs whose values are placed around the thresholds (price, price+1, reference-fee boundary -2..+3, ample) with the UTXO exceeding the price at every position x 3 fee quotes; the partially signed tx crosses a serialisation boundary. Oracle for every completed transaction: each input accepted by Execute(WithTx, WithForkID, WithAfterGenesis) against its spent output; listing flows keep the seller's output byte-identical at the index of the seller's input; FIFO satoshi assignment puts the ordinal's first satoshi in the buyer's script; inputs-outputs >= reference fee of the actual size. Inscriptions: content-type lengths {0,1,75,76,255,256} x payload lengths {0,1,75,76,255,256,65535,65536} x enrichment {none,1,2 parts} x prefix with/without spare capacity, inscribed twice: ParseInscription returns the same content type, data and 25-byte prefix. distinct_nontrivial = distinct completed transactions + inscription cases",
+		Rule: "exhaustive product: 4 flow pairs (list->accept, list->accept2Dummies, bid->accept, bid2Dummies->accept2Dummies) x seller/buyer keys (2x2 quick, 3x3 thorough) x funding UTXOs all locked to the buyer's key / each to a key of its own x prices {1,2,546,1000,1000000} x ordinal UTXO of 1 (and 2) satoshis, plain or inscription script x funding sets of 2..4 UTXOs whose values are placed around the thresholds (price, price+1, reference-fee boundary -2..+3, ample) with the UTXO exceeding the price at every position x 3 fee quotes; the partially signed tx crosses a serialisation boundary. Oracle for every completed transaction: each input accepted by Execute(WithTx, WithForkID, WithAfterGenesis) against its spent output; listing flows keep the seller's output byte-identical at the index of the seller's input; FIFO satoshi assignment puts the ordinal's first satoshi in the buyer's script; inputs-outputs >= reference fee of the actual size. Inscriptions: content-type lengths {0,1,75,76,255,256} x payload lengths {0,1,75,76,255,256,65535,65536} x enrichment {none,1,2 parts} x prefix with/without spare capacity, inscribed twice: ParseInscription returns the same content type, data and 25-byte prefix. distinct_nontrivial = distinct completed transactions + inscription cases",
 	})
 	sF := NewSpace(p, "flows", c20Check)
 	sI := NewSpace(p, "inscriptions", c20InscCheck)
@@ -312,7 +318,8 @@ func init() {
 												continue
 											}
 											yield(c20Case{Flow: flow, Seller: s, Buyer: b, Price: price, OrdSats: ordSats, Funds: fs, Q: q, Insc: (s+b+int(ex))%2 == 0})
-											completed++
+											yield(c20Case{Flow: flow, Seller: s, Buyer: b, Price: price, OrdSats: ordSats, Funds: fs, Q: q, Insc: (s+b+int(ex))%2 == 0, OwnKeys: true})
+											completed += 2
 										}
 									}
 								}
